@@ -140,6 +140,7 @@ func (hd *HeaderDirectives) StripRegularConditionals(header http.Header) {
 }
 
 func (hd *HeaderDirectives) ShouldCache(ignoreCacheControl bool) bool {
+	hasMaxAge := false
 	if !ignoreCacheControl && hd.CacheControl.IsPresent() {
 		cc := hd.CacheControl.Value()
 		if cc.noCache {
@@ -149,9 +150,11 @@ func (hd *HeaderDirectives) ShouldCache(ignoreCacheControl bool) bool {
 		if cc.maxAge < 1 {
 			return false // If max-age is less than 1 second, treat it as no-cache
 		}
+		hasMaxAge = true
 	}
 
-	if !ignoreCacheControl && hd.Expires.IsPresent() {
+	// A positive max-age takes precedence over Expires (same priority as in GetExpiresOrDefault)
+	if !ignoreCacheControl && !hasMaxAge && hd.Expires.IsPresent() {
 		expires := hd.Expires.Value()
 		if expires.Before(time.Now()) {
 			return false // If the Expires header is in the past, do not cache
